@@ -21,5 +21,18 @@ ScriptNext ==
         [] steps = 5 -> \E p \in Pages : EditBody(p, 1)
         [] steps = 6 -> DbReindex({})
         [] OTHER -> FALSE
+\* Directed scenario for C06: a page disappears, the index follows, the page comes back unchanged (possibly on a later
+\* day, possibly after an explicit-path run on another page), and the index must follow again.
+Script06Next ==
+  /\ idle' = idle
+  /\ CASE steps = 0 -> \E p \in Pages : DelPage(p)
+        [] steps = 1 -> DbReindex({}) \/ (\E q \in Pages : DbReindex({q}))
+        [] steps = 2 -> NextDay \/ (\E p \in Pages : EditBody(p, 1)) \/ DbReindex({})
+        [] steps = 3 -> \E p \in Pages : RestorePage(p)
+        [] steps = 4 -> DbReindex({})
+        [] steps = 5 -> \E p \in Pages : EditBody(p, 1)
+        [] steps = 6 -> DbReindex({})
+        [] OTHER -> FALSE
+Script06Spec == InitIndexed /\ idle = 0 /\ [][Script06Next]_<<vars, idle>>
 ScriptSpec == InitIndexed /\ idle = 0 /\ [][ScriptNext]_<<vars, idle>>
 =============================================================================
